@@ -27,10 +27,11 @@ VARIABLES run,        \* index of the run being matched (NRuns + 1: everything m
           hw,         \* [hammer -> where its current connection is: "none","backlog","old","new","refused"]
           sw,         \* [Reqs -> where the scripted connection is: "none","old","backlog","finished"]
           sa,         \* [Reqs -> address of the scripted connection]
+          killReq,    \* the harness has closed the old worker's command channel; the worker dies when it notices
           lastH       \* hammers do not interact: between two other steps they move in index order
                       \* (0 after any other step); a sound reduction of the interleavings TLC explores
 
-tvars == <<run, lc, lh, hw, sw, sa, lastH>>
+tvars == <<run, lc, lh, hw, sw, sa, killReq, lastH>>
 allvars == <<vars, tvars>>
 
 MaxHam == 4
@@ -59,7 +60,7 @@ RunInit(k) ==
   /\ req = [r \in Reqs |-> FreeSlot]
   /\ draining = FALSE /\ deadlinePassed = FALSE /\ acks = 0 /\ acceptedAfterStop = 0
   /\ lc = 0 /\ lh = [h \in Hams |-> 0] /\ hw = [h \in Hams |-> "none"]
-  /\ sw = [r \in Reqs |-> "none"] /\ sa = [r \in Reqs |-> 1] /\ lastH = 0
+  /\ sw = [r \in Reqs |-> "none"] /\ sa = [r \in Reqs |-> 1] /\ killReq = FALSE /\ lastH = 0
 
 RunInitNext(k) ==
   /\ proto' = IV(k).proto /\ fd' = IV(k).fd
@@ -71,7 +72,7 @@ RunInitNext(k) ==
   /\ req' = [r \in Reqs |-> FreeSlot]
   /\ draining' = FALSE /\ deadlinePassed' = FALSE /\ acks' = 0 /\ acceptedAfterStop' = 0
   /\ lc' = 0 /\ lh' = [h \in Hams |-> 0] /\ hw' = [h \in Hams |-> "none"]
-  /\ sw' = [r \in Reqs |-> "none"] /\ sa' = [r \in Reqs |-> 1] /\ lastH' = 0
+  /\ sw' = [r \in Reqs |-> "none"] /\ sa' = [r \in Reqs |-> 1] /\ killReq' = FALSE /\ lastH' = 0
 
 ASSUME NRuns >= 1
 TraceInit == run = 1 /\ RunInit(1)
@@ -96,7 +97,7 @@ T_SlotOpen ==
         /\ sw' = [sw EXCEPT ![Ev.r] = "backlog"]
         /\ req' = req
   /\ UNCHANGED <<proto, fd, sock, closedBy, manifest, oldPhase, newPhase, mpc, chan, resp, stopSent, draining,
-                 deadlinePassed, acks, acceptedAfterStop>>
+                 deadlinePassed, acks, acceptedAfterStop, killReq>>
 
 \* the client writes the rest of its request: as seen by the old worker the request becomes complete
 \* (Client_SendHead ; Client_FinishBody) - if the connection is still there
@@ -108,7 +109,7 @@ T_SlotRelease ==
      THEN req' = [req EXCEPT ![Ev.r].stage = Completed(req[Ev.r]), ![Ev.r].partial = FALSE]
      ELSE req' = req
   /\ UNCHANGED <<proto, fd, sock, closedBy, manifest, oldPhase, newPhase, mpc, chan, resp, stopSent, draining,
-                 deadlinePassed, acks, acceptedAfterStop, sw, sa>>
+                 deadlinePassed, acks, acceptedAfterStop, sw, sa, killReq>>
 
 T_SlotEnd ==
   /\ Ev.e = "SlotEnd" /\ Consume
@@ -136,18 +137,18 @@ T_SlotEnd ==
         /\ fd[sa[Ev.r]] = "closed"
         /\ req' = req
   /\ UNCHANGED <<proto, fd, sock, closedBy, manifest, oldPhase, newPhase, mpc, chan, resp, stopSent, draining,
-                 deadlinePassed, acks, acceptedAfterStop, sa>>
+                 deadlinePassed, acks, acceptedAfterStop, sa, killReq>>
 
 ---------------------------------------------------------------------------
 (* master steps *)
 
-T_ReturnSent == Ev.e = "ReturnSent" /\ Consume /\ Master_AskReturn /\ UNCHANGED <<sw, sa>>
+T_ReturnSent == Ev.e = "ReturnSent" /\ Consume /\ Master_AskReturn /\ UNCHANGED <<sw, sa, killReq>>
 
 \* the Ok of ReturnListenSockets is in the channel (the old worker has processed the command)
 T_ReturnResp ==
   /\ Ev.e = "ReturnResp" /\ Consume /\ Ev.status = "Ok"
   /\ mpc = "askedReturn" /\ resp # <<>> /\ Head(resp) = "ReturnOk"
-  /\ UNCHANGED <<vars, sw, sa>>
+  /\ UNCHANGED <<vars, sw, sa, killReq>>
 
 \* receive_listeners: same addresses, each in the bucket of its protocol, each descriptor bound to its address
 T_Received ==
@@ -157,11 +158,11 @@ T_Received ==
   /\ \A i \in 1..Len(Ev.pairs) : /\ Ev.pairs[i].bucket = Bucket(proto[Ev.pairs[i].a])
                                  /\ Ev.pairs[i].bound = sock[Ev.pairs[i].a]
   /\ Master_ReceiveListeners
-  /\ UNCHANGED <<sw, sa>>
+  /\ UNCHANGED <<sw, sa, killReq>>
 
-T_SoftStopSent == Ev.e = "SoftStopSent" /\ Consume /\ Master_SendSoftStop /\ UNCHANGED <<sw, sa>>
-T_SuccStarted  == Ev.e = "SuccStarted" /\ Consume /\ Master_StartSuccessor /\ UNCHANGED <<sw, sa>>
-T_Activated    == Ev.e = "Activated" /\ Consume /\ Ev.status = "Ok" /\ New_Activate(Ev.a) /\ UNCHANGED <<sw, sa>>
+T_SoftStopSent == Ev.e = "SoftStopSent" /\ Consume /\ Master_SendSoftStop /\ UNCHANGED <<sw, sa, killReq>>
+T_SuccStarted  == Ev.e = "SuccStarted" /\ Consume /\ Master_StartSuccessor /\ UNCHANGED <<sw, sa, killReq>>
+T_Activated    == Ev.e = "Activated" /\ Consume /\ Ev.status = "Ok" /\ New_Activate(Ev.a) /\ UNCHANGED <<sw, sa, killReq>>
 
 \* answers to SoftStop: "Processing" notices are not terminal; exactly one terminal Ok
 T_StopResp ==
@@ -171,25 +172,26 @@ T_StopResp ==
      \/ Ev.status = "Ok" /\ Head(resp) = "StopOk"
   /\ resp' = Tail(resp)
   /\ UNCHANGED <<proto, fd, sock, closedBy, manifest, oldPhase, newPhase, mpc, chan, stopSent, req, draining,
-                 deadlinePassed, acks, acceptedAfterStop, sw, sa>>
+                 deadlinePassed, acks, acceptedAfterStop, sw, sa, killReq>>
 
 T_OldExited ==
   /\ Ev.e = "OldExited" /\ Consume /\ Ev.how = "clean"
   /\ \/ Old_Exit /\ resp = <<>>          \* every answer was read, the terminal one included
      \/ oldPhase = "dead" /\ UNCHANGED vars
-  /\ UNCHANGED <<sw, sa>>
+  /\ UNCHANGED <<sw, sa, killReq>>
 
-T_OldKilled == Ev.e = "OldKilled" /\ Consume /\ Old_Die /\ UNCHANGED <<sw, sa>>
+\* the command channel is closed under the old worker: it dies when its loop sees the hang-up (silent Old_Die)
+T_OldKilled == Ev.e = "OldKilled" /\ Consume /\ oldPhase # "dead" /\ killReq' = TRUE /\ UNCHANGED <<vars, sw, sa>>
 
-T_Deadline == Ev.e = "DeadlineElapsed" /\ Consume /\ Tick_Deadline /\ UNCHANGED <<sw, sa>>
+T_Deadline == Ev.e = "DeadlineElapsed" /\ Consume /\ Tick_Deadline /\ UNCHANGED <<sw, sa, killReq>>
 
 \* after the hand-over every address is served by the successor
 T_Probe ==
   /\ Ev.e = "Probe" /\ Consume
   /\ Ev.ok /\ Ev.by = "new" /\ fd[Ev.a] = "new" /\ sock[Ev.a] = Ev.a
-  /\ UNCHANGED <<vars, sw, sa>>
+  /\ UNCHANGED <<vars, sw, sa, killReq>>
 
-T_HamStop == Ev.e = "HamStop" /\ Consume /\ UNCHANGED <<vars, sw, sa>>
+T_HamStop == Ev.e = "HamStop" /\ Consume /\ UNCHANGED <<vars, sw, sa, killReq>>
 
 T_Ctl ==
   /\ run <= NRuns /\ lc < Len(Ctl)
@@ -212,7 +214,7 @@ T_HConn(h) ==
                ELSE fd[e.a] = "closed" /\ hw' = [hw EXCEPT ![h] = "refused"]
   /\ lh' = [lh EXCEPT ![h] = @ + 1]
   /\ h >= lastH /\ lastH' = h
-  /\ UNCHANGED <<vars, run, lc, sw, sa>>
+  /\ UNCHANGED <<vars, run, lc, sw, sa, killReq>>
 
 \* accept (silent): by the worker that holds the listener registered
 T_HAccept(h) ==
@@ -229,7 +231,7 @@ T_HAccept(h) ==
            /\ UNCHANGED acceptedAfterStop
   /\ h >= lastH /\ lastH' = h
   /\ UNCHANGED <<proto, fd, sock, closedBy, manifest, oldPhase, newPhase, mpc, chan, resp, stopSent, req, draining,
-                 deadlinePassed, acks, run, lc, lh, sw, sa>>
+                 deadlinePassed, acks, run, lc, lh, sw, sa, killReq>>
 
 T_HEnd(h) ==
   /\ run <= NRuns /\ h <= NHam /\ lh[h] < HamLen(h)
@@ -248,7 +250,7 @@ T_HEnd(h) ==
   /\ lh' = [lh EXCEPT ![h] = @ + 1]
   /\ hw' = [hw EXCEPT ![h] = "none"]
   /\ h >= lastH /\ lastH' = h
-  /\ UNCHANGED <<vars, run, lc, sw, sa>>
+  /\ UNCHANGED <<vars, run, lc, sw, sa, killReq>>
 
 ---------------------------------------------------------------------------
 (* silent steps of the workers *)
@@ -256,8 +258,9 @@ T_HEnd(h) ==
 T_Silent ==
   /\ run <= NRuns
   /\ \/ Old_ReturnListenSockets \/ Old_SoftStop \/ Old_ShutDownSessions \/ New_Start
+     \/ (killReq /\ Old_Die)
   /\ lastH' = 0
-  /\ UNCHANGED <<run, lc, lh, hw, sw, sa>>
+  /\ UNCHANGED <<run, lc, lh, hw, sw, sa, killReq>>
 
 \* a run is matched when every stream is consumed; the next one starts from its own initial state
 AllConsumed == lc = Len(Ctl) /\ \A h \in Hams : lh[h] = HamLen(h)
@@ -266,7 +269,7 @@ T_NextRun ==
   /\ run' = run + 1
   /\ IF run + 1 <= NRuns
      THEN RunInitNext(run + 1)
-     ELSE UNCHANGED <<vars, lc, lh, hw, sw, sa, lastH>>
+     ELSE UNCHANGED <<vars, lc, lh, hw, sw, sa, killReq, lastH>>
 
 TraceNext == T_Ctl \/ (\E h \in Hams : T_HConn(h) \/ T_HAccept(h) \/ T_HEnd(h)) \/ T_Silent \/ T_NextRun
 
